@@ -1,6 +1,8 @@
 #!/bin/bash
 # Regression guards for "fix:" commits in /repo: (1) the pinned baseline command, (2) the repo's own suite pointed at /repo/src.
 cd /repo
+export HYPOTHESIS_STORAGE_DIRECTORY=$(mktemp -d /tmp/hypdb-XXXX)
+trap "rm -rf $HYPOTHESIS_STORAGE_DIRECTORY /repo/.hypothesis" EXIT
 echo "== pinned (installed wheel) =="
 /venv/bin/python -m pytest -q -p no:cacheprovider --timeout=900 --continue-on-collection-errors 2>&1 | tail -1
 echo "== suite against /repo/src =="
